@@ -404,6 +404,9 @@ class Extractor:
         if isinstance(s, ast.Raise):
             self.raising_paths.append((m, s, list(st.guards)))
             return []
+        if isinstance(s, ast.Assert):
+            # a check that passes changes nothing (that it has no effect is rule C18.N8); one that fails ends no returning path
+            return [(st, _NORET)]
         raise AnalysisError('templates: unsupported statement %s in %s line %d' % (type(s).__name__, m.qname, s.lineno))
 
     @staticmethod
